@@ -235,6 +235,8 @@ class C14(Scenario):
         spec = bin_specs.get(feature)
         for idx, c in enumerate(cols):
             sp = spec[idx] if isinstance(spec, list) and len(spec) == len(cols) else spec if isinstance(spec, dict) else bin_specs.get(c)
+            if not sp:
+                sp = bin_specs.get(c)  # an empty entry of a multi-dimensional specification: the column's own one applies
             if not isinstance(sp, dict) or np.issubdtype(np.dtype(var_dtype[c]), np.datetime64) or np.issubdtype(np.dtype(var_dtype[c]), np.bool_):
                 continue
             vals = [float(v) for v in df[c].values if v == v and abs(float(v)) != float("inf")]
